@@ -10,6 +10,7 @@ import (
 	"fmt"
 	"io"
 	"net"
+	"runtime"
 	"time"
 )
 
@@ -287,6 +288,11 @@ func VerifHeaderVersion(key, version int16) int {
 // VerifDecodeValue decodes kind at buf[start:] with a realDecoder whose buffer has capacity = length.
 // kinds: record | records (n) | batch | mset | top | control (value = aux) | resphdr (n = header version) | reqhdr
 func VerifDecodeValue(kind string, buf []byte, start int, n int, aux []byte) (res VerifDecoded) {
+	if len(aux) == 1 && aux[0] == 0xfe && kind != "control" {
+		// "fresh pools": two collections empty the sync.Pools of the decompressors (gzip / lz4 readers)
+		runtime.GC()
+		runtime.GC()
+	}
 	raw := make([]byte, len(buf))
 	copy(raw, buf)
 	rd := &realDecoder{raw: raw, off: start}
@@ -316,6 +322,14 @@ func VerifDecodeValue(kind string, buf []byte, start int, n int, aux []byte) (re
 	case "fblock":
 		res.FBlock = &FetchResponseBlock{}
 		err = res.FBlock.decode(rd, int16(n))
+		if err == nil {
+			// what the consumer does with the control batches of a decoded block (consumer.go parseResponse)
+			for _, records := range res.FBlock.RecordsSet {
+				if control, cerr := records.isControl(); cerr == nil && control {
+					_, _ = records.getControlRecord()
+				}
+			}
+		}
 	case "control":
 		res.Control = &ControlRecord{}
 		v := make([]byte, len(aux))
